@@ -1,6 +1,7 @@
 """Reader for parsing a DiffX file into DOM objects."""
 
-from pydiffx.errors import DiffXParseError
+from pydiffx.dom.properties import OptionProperty
+from pydiffx.errors import DiffXParseError, DiffXUnknownOptionError
 from pydiffx.reader import DiffXReader
 from pydiffx.sections import Section
 
@@ -197,7 +198,10 @@ class DiffXDOMReader(object):
             pydiffx.dom.objects.DiffXChangeSection:
             The new change section.
         """
-        return diffx.add_change(**section_info['options'])
+        change_section = diffx.add_change()
+        self._set_container_options(change_section, section_info['options'])
+
+        return change_section
 
     def _read_file_section(self, diffx, section, section_info):
         """Read a file section.
@@ -218,7 +222,43 @@ class DiffXDOMReader(object):
             pydiffx.dom.objects.DiffXFileSection:
             The new file section.
         """
-        return diffx.changes[-1].add_file(**section_info['options'])
+        file_section = diffx.changes[-1].add_file()
+        self._set_container_options(file_section, section_info['options'])
+
+        return file_section
+
+    def _set_container_options(self, section, options):
+        """Set the options from a change or file section's header.
+
+        Only names that are options of the section may appear in a header.
+        Anything else (including the names of content attributes, which the
+        section's constructor would accept) is reported as an unknown option.
+
+        Args:
+            section (pydiffx.dom.objects.BaseDiffXContainerSection):
+                The new section.
+
+            options (dict):
+                The options parsed from the section's header.
+
+        Raises:
+            pydiffx.errors.DiffXUnknownOptionError:
+                An option in the header is not valid for the section.
+        """
+        for name, value in options.items():
+            prop = None
+
+            for cls in type(section).__mro__:
+                if name in vars(cls):
+                    prop = vars(cls)[name]
+                    break
+
+            if not isinstance(prop, OptionProperty):
+                raise DiffXUnknownOptionError(
+                    '"%s" is not a valid option or content section'
+                    % name)
+
+            setattr(section, name, value)
 
     def _set_content_options(self, section, options):
         options.pop('length', None)
